@@ -87,6 +87,33 @@ def latch(ctx, kind="Ravg", ineq="<", pi=0, N=2):
     ctx.prove("met condition keeps its time", ctx.eq(c.satisfiedTime(), ts))
 
 
+def reuse(ctx, kind="volFrac", ineq=">", pi=1, N=2):
+    """a condition object used with one model, reset (as the TTP calculator and model.reset do), then used with a second model that lists the
+    phases / elements in another order: it still monitors the phase / element the user named"""
+    ph, el = ("P1", "P2"), ("A", "B")
+    m1, d1 = mk_model(ctx, N, ph, el)
+    thr = ctx.real("thr", (0.0, 2.0))
+    c = mk_cond(kind, ineq, thr, pi, ph, el)
+    c.testCondition(m1)
+    c.reset()
+    ctx.prove("reset condition is unsatisfied with time -1", (c.isSatisfied() is False or bool(c.isSatisfied()) is False) and float(c.satisfiedTime()) == -1)
+    ph2, el2 = ph[::-1], el[::-1]
+    m2 = PrecipitateModel(phases=list(ph2), elements=list(el2))
+    d2 = PrecipitationData(m2.phases, m2.elements, N)
+    d2.time = d1.time
+    for name in ("volFrac", "Ravg", "drivingForce", "nucRate", "precipitateDensity"):
+        setattr(d2, name, ctx.reals(name + "_2", (N, 2), (0.0, 2.0)))
+    d2.composition = ctx.reals("composition_2", (N, 2), (0.0, 1.0))
+    d2.n = N - 1
+    m2.pData = d2
+    c.testCondition(m2)
+    pi2 = None if pi is None else 1 - pi
+    v = monitored(d2, kind, N - 1, pi2)
+    want = holds(ctx, ineq, v, thr); got = c.isSatisfied()
+    ctx.prove("after reset the condition reads the named phase/element of the model it is now used with",
+              ctx.all([ctx.implies(want, got), ctx.implies(got, want)]))
+
+
 def interp(ctx, kind="volFrac", ineq=">", pi=1, N=3):
     """first satisfied at step n>0 after an unsatisfied previous step: time is the linear interpolant inside the step;
     first satisfied at step 0: time is t_0"""
@@ -190,7 +217,40 @@ def ttp(ctx, nc=2, pre=(), fresh=False):
     ctx.prove("conditions are and-combined in the model", m._stopConditionMode == [False] * nc and m._stoppingConditions == conds)
 
 
-def ttp_table(ctx, nc=2, nT=2):
+class _Pool:
+    """multiprocessing-pool stand-in: map/imap return results in submission order (their contract); imap_unordered returns them in the order
+    the workers finish, which is a schedule -- here a symbolic choice between submission order and its rotations/reversal"""
+    def __init__(self, ctx, only_map=False):
+        self.ctx = ctx
+        if only_map:
+            self.imap = self.imap_unordered = None
+            del self.imap, self.imap_unordered
+
+    def map(self, fn, it, chunksize=None):
+        return [fn(v) for v in it]
+
+    def imap(self, fn, it, chunksize=1):
+        return iter([fn(v) for v in it])
+
+    def imap_unordered(self, fn, it, chunksize=1):
+        out = [fn(v) for v in it]
+        if len(out) > 1 and bool(self.ctx.boolean("sched_reversed")):
+            out = out[::-1]
+        elif len(out) > 2 and bool(self.ctx.boolean("sched_rotated")):
+            out = out[1:] + out[:1]
+        return iter(out)
+
+    def map_async(self, fn, it, chunksize=None, callback=None, error_callback=None):
+        res = self.map(fn, it)
+        class _R:
+            def get(self_, timeout=None): return res
+            def wait(self_, timeout=None): return None
+            def ready(self_): return True
+            def successful(self_): return True
+        return _R()
+
+
+def ttp_table(ctx, nc=2, nT=2, pool=None):
     """TTPCalculator.calculateTTP: the table holds, for every temperature and condition, exactly the time _getStopTime returned
     (the run's interpolated crossing time, -1 when unmet)"""
     m = PrecipitateModel(phases=["P1"], elements=["A"])
@@ -207,7 +267,11 @@ def ttp_table(ctx, nc=2, nT=2):
         i = len(seen); seen.append(T)
         return [ts[i][j] if met[i][j] else -1 for j in range(nc)]
     calc._getStopTime = fake_stop_time
-    calc.calculateTTP(600.0, 700.0, nT, 10.0)
+    if pool is None:
+        calc.calculateTTP(600.0, 700.0, nT, 10.0)
+    else:
+        # user-supplied pool: whatever the order in which the workers finish, row i of the table belongs to temperature i
+        calc.calculateTTP(600.0, 700.0, nT, 10.0, pool=_Pool(ctx, only_map=(pool == "map_only")))
     ctx.prove("one run per temperature, in order", len(seen) == nT and [float(x) for x in seen] == [float(x) for x in np.linspace(600.0, 700.0, nT)])
     ctx.prove("table shape", tuple(np.shape(calc.transformationTimes)) == (nT, nc))
     for i in range(nT):
@@ -224,6 +288,8 @@ _all_kinds = [{"kind": k, "ineq": i, "pi": p} for k in KINDS for i in (">", "<")
 HARNESSES = [
     Harness("C19.read", read, functions=_F, assumptions=_A, bounds={"history length": "N", "phases/elements": 2},
             params={"quick": [dict(x, N=2) for x in _all_kinds[::3]] + [dict(_all_kinds[4], N=1)] + [dict(x, N=2) for x in _all_kinds if x["kind"] == "composition" and x["pi"] == 1], "thorough": [dict(x, N=n) for x in _all_kinds for n in (1, 3)]}),
+    Harness("C19.reuse", reuse, functions=_F, assumptions=_A + ["two models with the same phases/elements listed in opposite orders"], bounds={"history length": "N"},
+            params={"quick": [dict(x, N=2) for x in _all_kinds[1::5]] + [dict(x, N=2) for x in _all_kinds if x["pi"] == 1 and x["ineq"] == ">"], "thorough": [dict(x, N=n) for x in _all_kinds for n in (1, 2)]}),
     Harness("C19.latch", latch, functions=_F, assumptions=_A,
             params={"quick": [dict(x, N=2) for x in _all_kinds[1::7]], "thorough": [dict(x, N=2) for x in _all_kinds]}),
     Harness("C19.interp", interp, functions=_F, assumptions=_A,
@@ -238,5 +304,6 @@ HARNESSES = [
             params={"quick": [{"nc": 1}, {"nc": 2}, {"nc": 2, "pre": ["or"]}, {"nc": 2, "fresh": True}], "thorough": [{"nc": 3}, {"nc": 3, "pre": ["or", "and"]}, {"nc": 3, "fresh": True}]}),
     Harness("C19.ttp_table", ttp_table, functions=[TTPCalculator.calculateTTP], assumptions=["crossing times > 0 arbitrary reals (fractions of a second included)"],
             stubs=["TTPCalculator._getStopTime replaced by a stub returning symbolic crossing times / -1 per symbolic bit (the real one is the subject of C19.ttp)"],
-            params={"quick": [{"nc": 2, "nT": 2}], "thorough": [{"nc": 3, "nT": 3}]}),
+            params={"quick": [{"nc": 2, "nT": 2}, {"nc": 1, "nT": 2, "pool": "mp"}, {"nc": 1, "nT": 2, "pool": "map_only"}],
+                    "thorough": [{"nc": 3, "nT": 3}, {"nc": 2, "nT": 3, "pool": "mp"}, {"nc": 2, "nT": 4, "pool": "mp"}, {"nc": 2, "nT": 3, "pool": "map_only"}]}),
 ]
